@@ -552,6 +552,9 @@ func TestVF_C13_Frame(t *testing.T) {
 			}
 		}
 		for _, n := range cuts {
+			if n < 0 || n >= len(first) {
+				continue // not a proper prefix
+			}
 			where := "payload"
 			if n < vfMagicLen {
 				where = "magic"
